@@ -16,6 +16,7 @@ import (
 	"bytes"
 	"encoding/json"
 	"fmt"
+	"io"
 	"os"
 	"os/exec"
 	"runtime"
@@ -136,37 +137,46 @@ func axDump(v interface{}) S {
 }
 
 func axEnc(v interface{}) (out []byte, err error) {
+	var buf bytes.Buffer
+	err = axEncTo(v, &buf)
+	if err != nil && strings.HasPrefix(err.Error(), "panic: ") {
+		return nil, err
+	}
+	return buf.Bytes(), err
+}
+
+// axEncTo runs the real encoder of the value's kind on the writer.
+func axEncTo(v interface{}, w io.Writer) (err error) {
 	defer func() {
 		if r := recover(); r != nil {
-			out, err = nil, fmt.Errorf("panic: %v", r)
+			err = fmt.Errorf("panic: %v", r)
 		}
 	}()
-	var buf bytes.Buffer
 	switch x := v.(type) {
 	case bpv7.CreationTimestamp:
-		err = cboring.Marshal(&x, &buf)
+		err = cboring.Marshal(&x, w)
 	case bpv7.EndpointID:
-		err = cboring.Marshal(&x, &buf)
+		err = cboring.Marshal(&x, w)
 	case bpv7.BundleID:
-		err = cboring.Marshal(&x, &buf)
+		err = cboring.Marshal(&x, w)
 	case bpv7.BundleStatusItem:
-		err = cboring.Marshal(&x, &buf)
+		err = cboring.Marshal(&x, w)
 	case *bpv7.StatusReport:
-		err = cboring.Marshal(x, &buf)
+		err = cboring.Marshal(x, w)
 	case axAdm:
-		err = bpv7.GetAdministrativeRecordManager().WriteAdministrativeRecord(x.sr, &buf)
+		err = bpv7.GetAdministrativeRecordManager().WriteAdministrativeRecord(x.sr, w)
 	case discovery.Announcement:
-		err = cboring.Marshal(&x, &buf)
+		err = cboring.Marshal(&x, w)
 	case axAnns:
 		var d []byte
 		d, err = discovery.MarshalAnnouncements([]discovery.Announcement(x))
-		buf.Write(d)
+		_, _ = w.Write(d)
 	case agent.VerifWam:
-		err = agent.VerifWamMarshal(x, &buf)
+		err = agent.VerifWamMarshal(x, w)
 	default:
 		panic("axEnc")
 	}
-	return buf.Bytes(), err
+	return err
 }
 
 // axDec runs the real decoder of the kind on the reader; consumed is what the decoder took from it
@@ -476,7 +486,7 @@ func axStreamVals(o *Out, r *Rng, cand []interface{}) {
 }
 
 // axStreamRead decodes one message of the kind from the shared reader.
-func axStreamRead(kind string, rd *bytes.Reader) (obs S) {
+func axStreamRead(kind string, rd io.Reader) (obs S) {
 	defer func() {
 		if r := recover(); r != nil {
 			obs = L(Sym("panic"), Str(fmt.Sprint(r)))
